@@ -4,6 +4,7 @@ package router
 
 import (
 	"net/netip"
+	"regexp"
 
 	"github.com/mycoria/mycoria/api/httpapi"
 	"github.com/mycoria/mycoria/api/netstack"
@@ -84,3 +85,5 @@ func vfNewPingID() uint64 {
 	vfPingIDs = append(vfPingIDs, id)
 	return id
 }
+
+func vfMatchRe(re *regexp.Regexp, s string) bool { return vfMatchPingType(s) }
